@@ -3,6 +3,7 @@ package interpreter
 import (
 	"fmt"
 	"math"
+	"reflect"
 	"strconv"
 
 	"github.com/ah-naf/borno/ast"
@@ -857,8 +858,59 @@ func isTruthy(value interface{}) bool {
 	return true // Everything else is considered true
 }
 
+// isEqual compares two runtime values without ever panicking: numbers by
+// numeric value and strings by content (whatever host type carries them),
+// nil and booleans by value, arrays, objects and functions by identity;
+// values of different kinds are unequal.
 func isEqual(a, b interface{}) bool {
-	return a == b
+	if an, ok := numericValue(a); ok {
+		bn, ok := numericValue(b)
+		return ok && an == bn
+	}
+	if as, ok := stringValue(a); ok {
+		bs, ok := stringValue(b)
+		return ok && as == bs
+	}
+	if a == nil || b == nil {
+		return a == nil && b == nil
+	}
+	ta, tb := reflect.TypeOf(a), reflect.TypeOf(b)
+	if ta != tb {
+		return false
+	}
+	switch ta.Kind() {
+	case reflect.Slice:
+		va, vb := reflect.ValueOf(a), reflect.ValueOf(b)
+		return va.Pointer() == vb.Pointer() && va.Len() == vb.Len()
+	case reflect.Map:
+		return reflect.ValueOf(a).Pointer() == reflect.ValueOf(b).Pointer()
+	}
+	if ta.Comparable() {
+		return a == b
+	}
+	return false
+}
+
+func numericValue(v interface{}) (float64, bool) {
+	switch n := v.(type) {
+	case float64:
+		return n, true
+	case int64:
+		return float64(n), true
+	case int:
+		return float64(n), true
+	}
+	return 0, false
+}
+
+func stringValue(v interface{}) (string, bool) {
+	switch s := v.(type) {
+	case string:
+		return s, true
+	case []rune:
+		return string(s), true
+	}
+	return "", false
 }
 
 func getLineNumber(expr ast.Expr) int {
